@@ -1041,10 +1041,14 @@ impl Tuple {
             bitmap_size,
         )?;
 
-        // Copy existing deltas
+        // Copy existing deltas. Readers look for every delta at the next offset aligned for a
+        // DeltaHeader, so that is where the older ones have to go (the delta just written may
+        // end anywhere).
         if existing_deltas_size > 0 {
             let existing_deltas = &self.data.effective_data()[existing_deltas_start..];
-            buffer[cursor..cursor + existing_deltas_size].copy_from_slice(existing_deltas);
+            let destination = DeltaHeader::aligned_offset(cursor);
+            buffer[destination..destination + existing_deltas_size]
+                .copy_from_slice(existing_deltas);
         }
 
         self.data = new_data;
@@ -1160,8 +1164,11 @@ impl Tuple {
             }
         }
 
-        // Existing deltas
-        size += existing_deltas_size;
+        // Existing deltas (each one starts at an offset aligned for its header)
+        if existing_deltas_size > 0 {
+            size = DeltaHeader::aligned_offset(size);
+            size += existing_deltas_size;
+        }
 
         size
     }
